@@ -24,6 +24,8 @@ def run(tier):
         ck.violation("spec: InvertExact " + ",".join(r.violated), {"violated": r.violated}, site="spec")
     must_pass(r, "MC_InvertExact")
     ck.tlc(r, "inversion_reference")
+    big_done = 0
+    prev_default = None
     for c in r.printed:
         pb = c["pb"]
         pos = np.array(pb["pos"], dtype=float)
@@ -79,6 +81,65 @@ def run(tier):
             ck.violation("evidence = log N(y; A m, A K A' + S) up to the fixed constant", {**idn, "want": want_ev, "marginal_likelihood": ev,
                                                                                              "from_gradient_variant": float(ev2)},
                          site="GpLinearInverter.marginal_likelihood")
+        # a large problem: Rep copies of this one, 1e5 apart (squared-exponential prior, constant mean: the copies are independent),
+        # so hundreds of data points and parameters; the evidence is Rep times that of one copy
+        if pb["kern"]["k"] == "se" and len(pb["mean"]["th"]) <= 1 and big_done < (6 if tier == "quick" else 40):
+            big_done += 1
+            R = int(c["rep"])
+            try:
+                posR = np.concatenate([pos + np.array([1e5 * b] + [0.0] * (d - 1)) for b in range(R)])
+                AR = np.kron(np.eye(R), A)
+                covR, _ = G.build_kernel(pb["kern"], d, p * R)
+                meanR, _ = G.build_mean(pb["mean"])
+                invR = GpLinearInverter(y=np.tile(y, R), y_err=np.tile(yerr, R), model_matrix=AR, parameter_spatial_positions=posR,
+                                        prior_covariance_function=covR, prior_mean_function=meanR)
+                sc2 = 2.0 ** int(c["scale_log2"])
+                thS = th.copy()
+                thS[:len(mth)] *= sc2                                      # prior mean (constant)
+                thS[len(mth)] += np.log(sc2)                               # log-amplitude of the squared exponential
+                invS = GpLinearInverter(y=np.tile(y, R) * sc2, y_err=np.tile(yerr, R) * sc2, model_matrix=AR, parameter_spatial_positions=posR,
+                                        prior_covariance_function=G.build_kernel(pb["kern"], d, p * R)[0],
+                                        prior_mean_function=G.build_mean(pb["mean"])[0])
+                with np.errstate(all="ignore"):
+                    evR = float(invR.marginal_likelihood(th))
+                    evR2 = float(invR.marginal_likelihood_gradient(th)[0])
+                    evS = float(invS.marginal_likelihood(thS))
+                    evS2 = float(invS.marginal_likelihood_gradient(thS)[0])
+            except Exception as ex:
+                ck.violation("GpLinearInverter raised on a valid (large, block-diagonal) problem", {**idn, "copies": R, "error": repr(ex)[:300]},
+                             site="GpLinearInverter")
+            else:
+                wantR = SL.value(c["evidence_rep"])
+                magR = SL.magnitude(c["evidence_rep"])
+                ck.case(str(idn) + "rep")
+                if not (SL.close(evR, wantR, magR) and SL.close(evR2, wantR, magR)):
+                    ck.violation("evidence = log N(y; A m, A K A' + S) up to the fixed constant",
+                                 {**idn, "copies_1e5_apart": R, "data_points": int(len(y) * R), "want": wantR, "marginal_likelihood": evR,
+                                  "from_gradient_variant": evR2}, site="GpLinearInverter.marginal_likelihood:large")
+                wantS = SL.value(c["evidence_rep_scaled"])
+                if not (SL.close(evS, wantS, abs(wantS) + magR) and SL.close(evS2, wantS, abs(wantS) + magR)):
+                    ck.violation("evidence = log N(y; A m, A K A' + S) up to the fixed constant",
+                                 {**idn, "copies_1e5_apart": R, "data_points": int(len(y) * R), "all_data_and_prior_scaled_by": sc2, "want": wantS,
+                                  "marginal_likelihood": evS, "from_gradient_variant": evS2}, site="GpLinearInverter.marginal_likelihood:large")
+        # inverters are independent objects: one built with the DEFAULT prior covariance (squared exponential) keeps returning the
+        # same, correct posterior after another default inverter has been built on other positions
+        if pb["kern"]["k"] == "se":
+            try:
+                inv_d = GpLinearInverter(y=y, y_err=yerr, model_matrix=A, parameter_spatial_positions=pos, prior_mean_function=G.build_mean(pb["mean"])[0])
+                mu_d, Sig_d = inv_d.calculate_posterior(th)
+                if prev_default is not None:
+                    pinv, pth, pmu, pSig, pidn = prev_default
+                    mu_p, Sig_p = pinv.calculate_posterior(pth)
+                    ck.case(str(pidn) + "independent")
+                    if not (np.array_equal(mu_p, pmu) and np.array_equal(Sig_p, pSig)):
+                        ck.violation("posterior of an inverter does not change when another inverter is constructed (default prior covariance)",
+                                     {**pidn, "then_constructed": idn, "mean_before": pmu, "mean_after": mu_p}, site="GpLinearInverter:independence")
+                if not (GE.close(mu_d, want_mu, ys) and GE.close(np.asarray(Sig_d, dtype=float), want_S, float(np.max(np.abs(prior))))):
+                    ck.violation("posterior with the default prior covariance function (squared exponential) = closed form",
+                                 {**idn, "want": want_mu, "got": mu_d}, site="GpLinearInverter.calculate_posterior:default-kernel")
+                prev_default = (inv_d, th, mu_d, Sig_d, idn)
+            except Exception as ex:
+                ck.violation("GpLinearInverter raised on a valid problem", {**idn, "error": repr(ex)[:300]}, site="GpLinearInverter")
         nm = len(pb["mean"]["th"])
         g = np.asarray(g, dtype=float)
         wm = np.array([G.fr(v) for v in c["gmean"]])
